@@ -19,6 +19,10 @@ def explore_case(path_fn, engine_opts=None, setup=None, max_cex=1, want_samples=
 
     def one(eng):
         out = path_fn(eng)
+        # a finished path must have a satisfiable path condition; otherwise the interpreter lost track of its own
+        # decisions and every verdict on this path would be vacuous
+        if eng.check() != z3.sat:
+            raise symx.Unsupported('internal: finished path has an unsatisfiable path condition')
         checks = [(l, c) for l, c in out.get('checks', []) if c is not True]
         verdict = 'unsat'
         failing = []
